@@ -290,6 +290,51 @@ func TestC14(t *testing.T) {
 					x.cases += y.cases
 					y.rcv.retire()
 				}
+				// key rotation racing a stream: the 5-byte header arrives, the sealing key is removed, then the body arrives
+				{
+					rc := rcfg{Keys: "K1,K2", Label: cell.S.Label, EncVsn: cell.R.EncVsn}
+					sc := cell.S
+					sc.Keys = "K2"
+					k2seeds := captureSeeds(b, sc)
+					for _, sd := range k2seeds {
+						if !sd.Stream {
+							continue
+						}
+						hdr := 5
+						if sc.Label != "" {
+							hdr += 2 + len(sc.Label)
+						}
+						if len(sd.Buf) <= hdr {
+							continue
+						}
+						x.cases++
+						journal("C14 cell=%s seed=%s key removed mid-stream", cell.Name, sd.Family)
+						rcv := newReceiver(b, rc)
+						st0, _ := splitEffect(rcv.effect(nil))
+						c1, c2 := simPipe(simAddr("10.0.0.1:7946"), rcv.n.Addr)
+						b.conns = append(b.conns, c1, c2)
+						var reply []byte
+						c2.onWrite = func(bs []byte) { reply = append(reply, bs...) }
+						rcv.n.T.Accept(c2)
+						_, _ = c1.Write(sd.Buf[:hdr])
+						settle()
+						must(rcv.n.Cfg.Keyring.RemoveKey(keyK2))
+						_, _ = c1.Write(sd.Buf[hdr:])
+						settle()
+						c1.w.mu.Lock()
+						c1.w.eof = true
+						c1.w.signal()
+						c1.w.mu.Unlock()
+						settle()
+						st, rp := splitEffect(rcv.effect(reply))
+						if st != st0 || !(rp == "none" || rp == "error-reply") {
+							rep.Violate("tamper-accepted-different:key-removed-mid-stream:"+sd.Family, fmt.Sprintf("cell %s: %s sealed under a key that was removed after the stream header arrived was still acted on (reply %s)", cell.Name, sd.Family, rp), nil)
+						} else {
+							rep.Outcome("dropped:key-removed-mid-stream")
+						}
+						rcv.retire()
+					}
+				}
 				// plaintext of the same messages
 				{
 					pc := cell.S
